@@ -78,7 +78,7 @@ class Check:
         return recs
 
     # ------------------------------------------------------- trace validation
-    def validate(self, what, module, records, shard=None, env=None, timeout=900, project=None):
+    def validate(self, what, module, records, shard=None, env=None, timeout=900, project=None, spec='Spec', invariants=(), constants=None):
         """Feed observation records to the trace spec `module`; returns {id: verdict dict}.
         Every record must get exactly one verdict."""
         if not records:
@@ -99,7 +99,7 @@ class Check:
                 e = {'TRACE_FILE': path}
                 if env:
                     e.update(env)
-                cfg = tlc.cfg_text(invariants=[], deadlock=False)
+                cfg = tlc.cfg_text(spec=spec, invariants=list(invariants), constants=constants, deadlock=False)
                 r = tlc.run(module, cfg, workers=1, env=e, timeout=timeout, heap='3g')
                 tlc.check_ok(r, what + ' (trace shard %d)' % k)
                 return r
